@@ -73,5 +73,8 @@ DepositsAll == Dep1 \cup Dep2(0)
 NoFaults == { {} }
 \* every single fault and the pair "all payouts fail"
 OneFault == { {} } \cup { {x} : x \in { "sweep:" \o Key(a) : a \in { b \in AllAccs : IsBank(b) } } \cup { "pay:" \o Key(a) : a \in { b \in AllAccs : IsBank(b) } } \cup { "pay:BURN" } }
+\* every set of at most two faults (a block in which two transfers fail: e.g. a sweep and a payout, two payouts)
+FaultAtoms == { "sweep:" \o Key(a) : a \in { b \in AllAccs : IsBank(b) } } \cup { "pay:" \o Key(a) : a \in { b \in AllAccs : IsBank(b) } } \cup { "pay:BURN" }
+TwoFaults == { {} } \cup { {x, y} : x \in FaultAtoms, y \in FaultAtoms }
 NoTries == {}
 =============================================================================
